@@ -172,7 +172,7 @@ def check_c17(tier, seed, V):
     bad = [json.loads(l) for l in open(bad_p) if l.strip()]
     # clause (b): acquisition rounds observed in simulated elections (judged by MonitorTrace.tla)
     rounds = 0
-    for fam in ("core", "vacancy"):
+    for fam in ("core", "vacancy", "prio", "regress"):
         cd, meta = V.corpus(th, fam, tier, seed)
         for line in open(os.path.join(cd, "trace.ndjson")):
             if '"round_start"' in line:
